@@ -111,6 +111,9 @@ def build_exc(case: dict, value):
         e.response = Resp({key: value})
     elif shape == "response_pairs":
         e.response = Resp([(key, value)])
+    elif shape == "empty_headers_and_response":
+        e.headers = case.get("empty", {})  # SDK errors often default headers to an empty container
+        e.response = Resp({key: value})
     elif shape == "exploding":
         e.headers = Exploding()
     elif shape == "attr_and_header":
@@ -282,7 +285,7 @@ def _short(v):
 
 # ---------------------------------------------------------------------------- generators
 
-SHAPES = ["attr", "dict", "dict", "dict_extra", "pairs", "get_only", "get_items", "response", "response_pairs", "exploding", "attr_and_header"]
+SHAPES = ["attr", "dict", "dict", "dict_extra", "pairs", "get_only", "get_items", "response", "response_pairs", "exploding", "attr_and_header", "empty_headers_and_response"]
 KEYS = ["Retry-After", "retry-after", "RETRY-AFTER", "ReTrY-aFtEr", "Retry-after"]
 
 
@@ -366,6 +369,8 @@ def parse_case(draw):
         case["value"] = draw(nonstring_st())
     if case["shape"] == "attr_and_header":
         case["attr_value"] = draw(st.one_of(nonstring_st(), digits_st(), garbage_st()))
+    if case["shape"] == "empty_headers_and_response":
+        case["empty"] = draw(st.sampled_from([{}, [], (), ""]))
     return case
 
 
@@ -543,7 +548,7 @@ PROP = Property(
         "Grammar-based Hypothesis generation of Retry-After values (digit strings of length 1..5000 incl. 308/309/310 and "
         "4300/4301, signs, inner/outer whitespace, underscores, Unicode digits, decimals, exponents; HTTP-dates rendered from "
         "generated datetimes (years 100..9999, offsets -14h..+14h, GMT / numeric offset / naive / RFC 850 / asctime, +/- 2 h "
-        "around now, 40 % of them evaluated under a non-UTC local TZ); garbage text; ints of any size, floats incl. NaN/inf, bools, bytes, lists) x 11 container shapes "
+        "around now, 40 % of them evaluated under a non-UTC local TZ); garbage text; ints of any size, floats incl. NaN/inf, bools, bytes, lists) x 12 container shapes "
         "(exc.retry_after, dict with any key casing, list of pairs, .get-only and .get+.items objects, response.headers, a "
         "container that raises) x status via status/status_code/code/args; exhaustive digit-string lengths 1..600 (quick) / "
         "1..5000 (thorough) and powers of ten up to 10**413 as int attribute; Atheris (coverage-guided, libFuzzer) campaigns on "
